@@ -148,6 +148,18 @@ func main() {
 			r.Stats.BoundCompleted = 0
 		}
 	}
+	if p.Units != nil && thorough && os.Getenv("VERIF_UNIT_FILTER") == "" {
+		// The passes of the iterative bounding are global (pass d runs every unit whose
+		// bound is >= d), so a thorough tier that runs out of budget in a wide pass may have
+		// completed a lower bound than the quick tier completes on its smaller set. Run the
+		// quick configuration first: whatever happens afterwards, the thorough tier has
+		// covered everything the quick tier covers.
+		r.Explore(p.Units(false))
+		if !r.Stats.TimedOut {
+			r.Stats.Extra["quick_configuration_completed_in_shards"]++
+		}
+		r.Stats.BoundTarget, r.Stats.BoundCompleted = 0, -1
+	}
 	if p.Units != nil {
 		units := p.Units(thorough)
 		if f := os.Getenv("VERIF_UNIT_FILTER"); f != "" {
